@@ -179,9 +179,9 @@ theorem genInteger_total (hB : f.bias + 2 ≤ halfSize) {x : Nat} (hxi : x ≤ f
   exact ⟨out, by unfold genInteger; simp only [hy, Res.bind, ho]⟩
 
 /-- **digit generation never PANICs**: both loops stay inside the 2200-byte scratch buffer, for every finite pattern -/
-theorem generate_total (hL : L f ≤ halfSize) (hB : f.bias + 2 ≤ halfSize) (hr36 : r ≤ 36) {bits : Nat}
-    (hb : bits < f.infBits) : ∃ g, generate f r bits = .ok g := by
-  obtain ⟨x, hx⟩ := genFraction_total h hL hr hr36 hrp hb
+theorem generate_total (cf : Bool) (hL : L f ≤ halfSize) (hB : f.bias + 2 ≤ halfSize) (hr36 : r ≤ 36) {bits : Nat}
+    (hb : bits < f.infBits) : ∃ g, generate cf f r bits = .ok g := by
+  obtain ⟨x, hx⟩ := genFraction_total cf h hL hr hr36 hrp hb
   have hi : (if x.2.2 = true then fadd f (ffloor f bits) (one f) else ffloor f bits) ≤ f.infBits := by
     split
     · exact roundNE_le_infBits h.wf _ (unit_pos f)
